@@ -186,6 +186,13 @@ def main():
             add(dict(fn=name, a=a, b=b, got=got, ua=contents(ao, a) in (None, a['items']),
                      ub=contents(bo, b) in (None, b['items'])))
         if a['kind'] in ('Set', 'TreeSet') and b['kind'] != 'none':
+            ao, bo = make(a, n_), make(b, n_ + 3)
+            try:
+                counts['calls'] += 1
+                got = ['bool', 1 if ao.isdisjoint(bo) else 0]
+            except Exception as e:
+                got = ['exc', type(e).__name__]
+            add(dict(fn='isdisjoint', a=a, b=b, got=got, ua=contents(ao, a) == a['items'], ub=contents(bo, b) in (None, b['items'])))
             for name in ('ior', 'iand', 'isub', 'ixor'):
                 ao, bo = make(a, n_), make(b, n_ + 2)
                 try:
